@@ -235,7 +235,11 @@ func runCheck(id, repo, verif, tier string, seed int, freeze bool, keep string, 
 		pre = strings.Replace(pre, ";@@DATA@@\n", d.dataDecls(), 1)
 		txt := "(set-option :produce-models true)\n(set-logic ALL)\n" + pre + body + "\n(check-sat)\n"
 		name := "lemma/" + strings.TrimSuffix(filepath.Base(lf), ".smt2")
-		r := runQuery(dir, name, txt, timeout)
+		ltmo := timeout
+		if ltmo < 60000 {
+			ltmo = 60000 // standalone lemmas are the solver-heavy part (string induction steps): they get a minute even in the quick tier
+		}
+		r := runQuery(dir, name, txt, ltmo)
 		results = append(results, &oblResult{O: &Obl{Name: name, Kind: "lemma", Fn: "lemma", Src: firstLines(body, 2)}, R: r, Txt: txt})
 	}
 	// expected obligations
